@@ -165,8 +165,8 @@ func H_C08_twice() {
 	SetFieldSeparator(":")
 	g1, e1 := m.ValuesForKey("r", "a:x")
 	SetFieldSeparator("|")
+	g3, e3 := m.ValuesForKey("r", "a:x")    // the same text under another separator: one name "a:x", no value
 	g2, e2 := m.ValuesForKey("r", sk[:3])   // a|x  -> a == "x"
-	g3, e3 := m.ValuesForKey("r", "a:x")    // one condition name "a:x": nothing has that key
 	SetFieldSeparator(":")
 	g4, e4 := m.ValuesForKey("r", sk)       // a|x|y is one name without value: an error or nothing
 	_ = e4
@@ -175,6 +175,13 @@ func H_C08_twice() {
 	vAssert(e3 != nil || len(g3) == 0, "twice: a:x under '|' is not the condition a == x")
 	vAssert(len(g4) == 0, "twice: a|x|y under ':' selects nothing")
 	SetFieldSeparator()
+	// the same filtered, indexed query twice
+	m2 := Map{"sect": []interface{}{map[string]interface{}{"item": []interface{}{
+		map[string]interface{}{"kind": "x", "v": "a"}, map[string]interface{}{"kind": "y", "v": "b"}, map[string]interface{}{"kind": "y", "v": "c"}}}}}
+	q1, qe1 := m2.ValuesForPath("sect[0].item", "kind:y")
+	q2, qe2 := m2.ValuesForPath("sect[0].item", "kind:y")
+	q3, _ := m2.ValuesForPath("sect[0].item", "kind:x")
+	vAssert(qe1 == nil && qe2 == nil && len(q1) == 2 && vSameList(q1, q2) && len(q3) == 1, "twice: the same filtered query gives the same values again")
 	// the caller reuses one slice for its conditions
 	conds := []string{"b:1"}
 	h1, _ := m.ValuesForKey("r", conds...)
@@ -284,8 +291,8 @@ func H_C12_twice() {
 	c := vNondetString(1, 1, "xy")
 	m := Map{"c": map[string]interface{}{"k": c}, "d": "D", "e": []interface{}{"1"}}
 	if vChoose(2) == 1 {
-		_, err := m.NewMap("c:x", "d:x.*")
-		vAssert(err != nil, "twice: a malformed pair is rejected")
+		_, err := m.NewMap("c:x", "d:x.z", "e:q.*")
+		vAssert(err != nil, "twice: a malformed pair is rejected, also after well-formed ones")
 	}
 	mark := vMark(map[string]interface{}(m))
 	n, err := m.NewMap("c:x", "d:x.z")
